@@ -35,8 +35,14 @@ thread_local! {
     static PANICS: RefCell<Vec<String>> = const { RefCell::new(Vec::new()) };
 }
 
+static PANIC_LOG: std::sync::OnceLock<String> = std::sync::OnceLock::new();
+static CURRENT_CASE: std::sync::atomic::AtomicI64 = std::sync::atomic::AtomicI64::new(-1);
+
 /// Like util::catch, but returns the messages of *all* panics raised while `f` ran
 /// (the first one is the cause; later ones are tokio's "a spawned task panicked").
+/// Every panic is also appended (with its source location and the behaviour / run being executed)
+/// to the file named by `panics=`: a panic inside a destructor aborts the process and cannot be
+/// caught, the check then reads what happened from that file.
 fn catch_all<R>(f: impl FnOnce() -> R) -> Result<R, Vec<String>> {
     let prev = std::panic::take_hook();
     PANICS.with(|p| p.borrow_mut().clear());
@@ -48,11 +54,23 @@ fn catch_all<R>(f: impl FnOnce() -> R) -> Result<R, Vec<String>> {
         } else {
             "panic".to_string()
         };
+        if let Some(path) = PANIC_LOG.get() {
+            use std::io::Write;
+            if let Ok(mut f) = std::fs::OpenOptions::new().create(true).append(true).open(path) {
+                let loc = info.location().map(|l| format!("{}:{}", l.file(), l.line())).unwrap_or_default();
+                let case = CURRENT_CASE.load(std::sync::atomic::Ordering::Relaxed);
+                let _ = writeln!(f, "{}", json!({"case":case,"loc":loc,"msg":msg}));
+            }
+        }
         PANICS.with(|p| p.borrow_mut().push(msg));
     }));
     let r = std::panic::catch_unwind(std::panic::AssertUnwindSafe(f));
     std::panic::set_hook(prev);
     r.map_err(|_| PANICS.with(|p| p.borrow().clone()))
+}
+
+fn catch1<R>(f: impl FnOnce() -> R) -> Result<R, String> {
+    catch_all(f).map_err(|v| v.first().cloned().unwrap_or_default())
 }
 
 fn documented_panic(msg: &str) -> bool {
@@ -97,7 +115,7 @@ enum XCmd {
     BindUdp { s: usize, p: u16, lo: bool },
     BindTcp { s: usize, p: u16, lo: bool },
     Connect { s: usize, how: String },
-    CancelPending,
+    CancelPending { s: usize },
     Accept { s: usize, l: usize },
     Drop { s: usize },
     DropHalf { s: usize, h: String },
@@ -215,6 +233,8 @@ async fn ports_x(sh: Rc<RefCell<PortsShared>>, nt: Rc<Notify>) -> turmoil::Resul
                     let mut fut: BoxFut<std::io::Result<TcpStream>> = match how.as_str() {
                         "ok" | "cancel" => Box::pin(TcpStream::connect(("peer", 80))),
                         "refused" => Box::pin(TcpStream::connect(("peer", 81))),
+                        // port 82: a listener that never accepts - the connect stays pending
+                        "hang" => Box::pin(TcpStream::connect(("peer", 82))),
                         _ => {
                             let a: SocketAddr = if v6 {
                                 "[fd00::99]:80".parse().unwrap()
@@ -240,8 +260,10 @@ async fn ports_x(sh: Rc<RefCell<PortsShared>>, nt: Rc<Notify>) -> turmoil::Resul
                         Ok(None) => pending.push((s, fut)),
                     }
                 }
-                XCmd::CancelPending => {
-                    for (s, fut) in pending.drain(..) {
+                XCmd::CancelPending { s } => {
+                    let (mine, rest): (Vec<_>, Vec<_>) = pending.drain(..).partition(|(ps, _)| *ps == s);
+                    pending = rest;
+                    for (s, fut) in mine {
                         drop(fut);
                         sh.borrow_mut().results.push(json!({"s":s,"res":FAILED,"err":"cancelled"}));
                     }
@@ -249,6 +271,7 @@ async fn ports_x(sh: Rc<RefCell<PortsShared>>, nt: Rc<Notify>) -> turmoil::Resul
                 XCmd::Accept { s, l } => accepting.push((s, l)),
                 XCmd::Drop { s } => {
                     socks.remove(&s);
+                    pending.retain(|(ps, _)| *ps != s); // a pending connect is dropped with its future
                 }
                 XCmd::DropHalf { s, h } => {
                     let cur = socks.remove(&s);
@@ -289,6 +312,7 @@ fn futures_now<F: Future + Unpin>(f: &mut F) -> Option<F::Output> {
 async fn ports_peer(sh: Rc<RefCell<PortsShared>>, nt: Rc<Notify>) -> turmoil::Result {
     let v6 = sh.borrow().v6;
     let lst = TcpListener::bind((wildcard(v6), 80)).await?;
+    let _never_accepts = TcpListener::bind((wildcard(v6), 82)).await?;
     let mut accepted: Vec<(u16, TcpStream)> = Vec::new();
     let mut outs: Vec<(u16, TcpStream)> = Vec::new();
     let mut pending: Vec<BoxFut<std::io::Result<TcpStream>>> = Vec::new();
@@ -357,6 +381,7 @@ impl<'a> PortsRun<'a> {
             .min_message_latency(Duration::from_millis(1))
             .max_message_latency(Duration::from_millis(1))
             .ephemeral_ports(lo..=hi)
+            .tcp_capacity(4096)
             .rng_seed(seed)
             .simulation_duration(Duration::from_secs(36000));
         if v6 {
@@ -461,10 +486,36 @@ impl<'a> PortsRun<'a> {
                 }
                 self.sh.borrow_mut().xcmds.push_back(XCmd::Connect { s, how: how.clone() });
                 self.steps(1);
+                if how == "hang" {
+                    // the port the pending attempt holds: source of its SYN, as Sim::links shows it
+                    let res = match self.take_result(s) {
+                        Some(r) => r["res"].as_i64().unwrap(),
+                        None => {
+                            let mut port = FAILED;
+                            self.sim.links(|links| {
+                                for link in links {
+                                    for sent in link {
+                                        let (src, dst) = sent.pair();
+                                        if dst.port() == 82 && matches!(sent.protocol(), turmoil::Protocol::Tcp(turmoil::Segment::Syn(_))) {
+                                            port = src.port() as i64;
+                                        }
+                                    }
+                                }
+                            });
+                            port
+                        }
+                    };
+                    self.steps(2);
+                    if res > 0 {
+                        self.slots.insert(s, SlotInfo { lo: false, kind: "att".into(), port: res as u16, peer: 0, r: true, w: true });
+                    }
+                    self.steps(1);
+                    return json!({"ev":"connect","s":s,"how":how,"res":res});
+                }
                 if how == "cancel" {
                     // an exhausted attempt has already reported; otherwise cancel it now
                     if self.sh.borrow().results.iter().all(|r| r["s"].as_u64() != Some(s as u64)) {
-                        self.sh.borrow_mut().xcmds.push_back(XCmd::CancelPending);
+                        self.sh.borrow_mut().xcmds.push_back(XCmd::CancelPending { s });
                         self.steps(1);
                     }
                     self.sim.release("x", "peer");
@@ -736,7 +787,7 @@ fn main_ports_replay(args: &[String]) {
             continue;
         }
         let beh: Vec<Value> = serde_json::from_str(line).expect("behaviour json");
-        let (rd, td, tr, nt) = match util::catch(|| ports_replay_one(&beh, lo, hi, v6)) {
+        let (rd, td, tr, nt) = match { CURRENT_CASE.store(k as i64, std::sync::atomic::Ordering::Relaxed); catch1(|| ports_replay_one(&beh, lo, hi, v6)) } {
             Ok(x) => x,
             Err(p) => (Some(json!({"what":"panic","msg":p})), None, vec![], false),
         };
@@ -827,7 +878,7 @@ fn main_ports_random(args: &[String]) {
                     2 | 3 => json!({"a":"bind","proto":"tcp","kind": if rng.random_bool(0.3) {"lo"} else {"any"},"s":s,"p": if rng.random_bool(0.6) {0} else {fixed[rng.random_range(0..fixed.len())]}}),
                     4 | 5 => json!({"a":"connect","s":s,"how":"ok"}),
                     6 => {
-                        let how = ["refused", "noroute", "cancel"][rng.random_range(0..3)];
+                        let how = ["refused", "noroute", "cancel", "hang"][rng.random_range(0..4)];
                         json!({"a":"connect","s":s,"how":how})
                     }
                     _ => {
@@ -934,6 +985,8 @@ enum End {
 #[derive(Clone, Debug)]
 enum TCmd {
     Bind { p: u64, kind: String },
+    /// a listener shared by `workers` tasks, each parked in accept() and busy for a while after it returned
+    BindPool { p: u64, kind: String, workers: usize },
     DropListener { p: u64 },
     Connect { c: u64, dst: String, dh: u64, p: u64, lo: bool },
     Poll { c: u64 },
@@ -1076,6 +1129,7 @@ async fn tcp_exec(
                 };
                 rec::emit(json!({"ev":"bind","h":h,"p":p,"kind":kind,"res":res}));
             }
+            TCmd::BindPool { .. } => {}
             TCmd::DropListener { p } => {
                 if listeners.remove(&p).is_some() {
                     rec::emit(json!({"ev":"drop_listener","h":h,"p":p}));
@@ -1190,16 +1244,96 @@ async fn tcp_exec(
     }
 }
 
+/// A listener shared by several tasks that are parked in accept() at the same time.
+struct Pool {
+    lst: Option<Rc<TcpListener>>,
+    workers: Vec<tokio::task::JoinHandle<()>>,
+    parked: Rc<std::cell::Cell<usize>>,
+}
+
+type Inbox = Rc<RefCell<Vec<(String, TcpStream)>>>;
+
+async fn pool_worker(h: usize, p: u64, lst: Rc<TcpListener>, parked: Rc<std::cell::Cell<usize>>, inbox: Inbox, serve: Duration) {
+    loop {
+        parked.set(parked.get() + 1);
+        let r = lst.accept().await;
+        parked.set(parked.get() - 1);
+        let Ok((st, origin)) = r else { return };
+        let local = st.local_addr().unwrap().to_string();
+        let key = format!("{origin}#w{}", rec::len());
+        rec::emit(json!({"ev":"accept","h":h,"p":p,"res":"ok","o":origin.to_string(),"key":key,"local":local,"peer":origin.to_string()}));
+        inbox.borrow_mut().push((key, st));
+        // the worker "serves" its connection for a while before it accepts again
+        tokio::time::sleep(serve).await;
+    }
+}
+
 async fn tcp_puppet(h: usize, sh: Rc<RefCell<TcpShared>>, nt: Rc<Notify>) -> turmoil::Result {
     let v6 = sh.borrow().v6;
     let mut listeners = BTreeMap::new();
     let mut futs = BTreeMap::new();
     let mut ends = BTreeMap::new();
+    let mut pools: BTreeMap<u64, Pool> = BTreeMap::new();
+    let inbox: Inbox = Rc::new(RefCell::new(Vec::new()));
     loop {
         nt.notified().await;
         rec::emit(json!({"ev":"turn","h":h}));
-        let cmds: Vec<TCmd> = sh.borrow_mut().cmds[h].drain(..).collect();
-        tcp_exec(h, v6, cmds, &mut listeners, &mut futs, &mut ends).await;
+        for (k, st) in inbox.borrow_mut().drain(..) {
+            ends.insert(k, End::Whole(st));
+        }
+        let mut cmds: Vec<TCmd> = sh.borrow_mut().cmds[h].drain(..).collect();
+        // pool commands are handled here (they spawn / abort tasks), everything else by tcp_exec
+        let mut rest = Vec::new();
+        for c in cmds.drain(..) {
+            match c {
+                TCmd::BindPool { p, kind, workers } => {
+                    let ip: IpAddr = if kind == "lo" { bind_ip(v6, true) } else { wildcard(v6) };
+                    let mut f = Box::pin(TcpListener::bind((ip, real_port(p))));
+                    let res = match futures_now(&mut f) {
+                        Some(Ok(l)) => {
+                            let lst = Rc::new(l);
+                            let parked = Rc::new(std::cell::Cell::new(0usize));
+                            let tick = Duration::from_millis(3);
+                            let hs = (0..workers)
+                                .map(|_| tokio::task::spawn_local(pool_worker(h, p, lst.clone(), parked.clone(), inbox.clone(), tick * 3)))
+                                .collect();
+                            pools.insert(p, Pool { lst: Some(lst), workers: hs, parked });
+                            "ok".to_string()
+                        }
+                        Some(Err(e)) => errname(&e),
+                        None => "pending".into(),
+                    };
+                    rec::emit(json!({"ev":"bind","h":h,"p":p,"kind":kind,"res":res}));
+                }
+                TCmd::DropListener { p } if pools.contains_key(&p) => {
+                    if let Some(mut pool) = pools.remove(&p) {
+                        for w in pool.workers.drain(..) {
+                            w.abort();
+                        }
+                        // the aborted tasks still hold their clone of the listener until they are polled
+                        tokio::task::yield_now().await;
+                        pool.lst.take();
+                        rec::emit(json!({"ev":"drop_listener","h":h,"p":p}));
+                    }
+                }
+                other => rest.push(other),
+            }
+        }
+        tcp_exec(h, v6, rest, &mut listeners, &mut futs, &mut ends).await;
+        if !pools.is_empty() {
+            // let the workers that were woken in this turn run, then look who is still parked
+            for _ in 0..3 {
+                tokio::task::yield_now().await;
+            }
+            for (k, st) in inbox.borrow_mut().drain(..) {
+                ends.insert(k, End::Whole(st));
+            }
+            for (p, pool) in &pools {
+                if pool.parked.get() > 0 {
+                    rec::emit(json!({"ev":"accept_parked","h":h,"p":p}));
+                }
+            }
+        }
         rec::emit(json!({"ev":"count","h":h,"n":turmoil::established_tcp_stream_count()}));
     }
 }
@@ -1391,6 +1525,13 @@ impl<'a> TcpRun<'a> {
         // 3. fold the recorded events
         for e in raw {
             let ev = e["ev"].as_str().unwrap_or("").to_string();
+            // deliveries precede everything the destination host does in this step (its puppet's turn
+            // and the tasks sharing its listener alike)
+            if !arrivals.is_empty() && e["h"].as_u64() == Some(self.nh as u64) && (ev == "turn" || ev == "accept") {
+                for c in arrivals.drain(..) {
+                    self.trace.push(json!({"ev":"syn_arrive","c":c}));
+                }
+            }
             match ev.as_str() {
                 "turn" => {
                     // deliveries happen at the start of the destination's turn
@@ -1956,7 +2097,7 @@ fn main_tcp_replay(args: &[String]) {
                 continue;
             }
             let beh: Vec<Value> = serde_json::from_str(line).expect("behaviour json");
-            let (rd, td, tr, nt) = match util::catch(|| tcp_replay_one(&beh, &cfg)) {
+            let (rd, td, tr, nt) = match { CURRENT_CASE.store(k as i64, std::sync::atomic::Ordering::Relaxed); catch1(|| tcp_replay_one(&beh, &cfg)) } {
                 Ok(x) => x,
                 Err(p) => {
                     rec::take();
@@ -2058,6 +2199,8 @@ fn main_tcp_random(args: &[String]) {
     let nconn = util::arg_u64(args, "conns", 3);
     let steps = util::arg_u64(args, "steps", 45);
     let mode = util::arg(args, "mode").unwrap_or("data".into());
+    let pressure = util::arg_u64(args, "pressure", 0);
+    let poolruns = util::arg_u64(args, "poolruns", 0);
     let out = util::arg(args, "out").expect("out=");
     let mut rng = SmallRng::seed_from_u64(seed ^ 0x6d746370);
     let mut all: Vec<Value> = Vec::new();
@@ -2066,6 +2209,7 @@ fn main_tcp_random(args: &[String]) {
         for r in 0..runs {
             let v6 = rng.random_bool(0.5);
             let run_seed: u64 = rng.random();
+            CURRENT_CASE.store(r as i64, std::sync::atomic::Ordering::Relaxed);
             let res = catch_all(|| {
             let mut rng = SmallRng::seed_from_u64(run_seed);
             let (mut nops, mut nfault, mut nreorder) = (0u64, 0u64, 0u64);
@@ -2080,8 +2224,13 @@ fn main_tcp_random(args: &[String]) {
             // burst: the connectors start back to back and the listener accepts only after their
             // requests have queued up (several requests pending at one listener at the same time)
             let burst_until: u64 = if conn_mode && rng.random_bool(0.6) { 2 * lmax / tick + nconn + 3 } else { 0 };
-            // listener(s)
-            run.cmd(nh, TCmd::Bind { p: 1, kind: "any".into() });
+            // listener(s); in half of the conn-mode runs port 1 is served by two tasks sharing the listener
+            let pool = conn_mode && rng.random_bool(0.5);
+            if pool {
+                run.cmd(nh, TCmd::BindPool { p: 1, kind: "any".into(), workers: 2 });
+            } else {
+                run.cmd(nh, TCmd::Bind { p: 1, kind: "any".into() });
+            }
             bound.insert(1, "any".into());
             if rng.random_bool(0.5) {
                 let kind = if rng.random_bool(0.5) { "lo" } else { "any" };
@@ -2134,7 +2283,7 @@ fn main_tcp_random(args: &[String]) {
                 }
                 // ---- listeners (conn mode): drop / re-bind
                 if conn_mode && rng.random_bool(0.05) {
-                    let p = rng.random_range(1..=2u64);
+                    let p = if pool { 2 } else { rng.random_range(1..=2u64) };
                     if bound.contains_key(&p) {
                         run.cmd(nh, TCmd::DropListener { p });
                         bound.remove(&p);
@@ -2184,6 +2333,9 @@ fn main_tcp_random(args: &[String]) {
                     }
                 }
                 for p in bound.keys() {
+                    if pool && *p == 1 {
+                        continue; // the worker tasks accept
+                    }
                     if st > burst_until && rng.random_bool(0.6) {
                         run.cmd(nh, TCmd::Accept { p: *p });
                     }
@@ -2306,9 +2458,182 @@ fn main_tcp_random(args: &[String]) {
                 }
             }
         }
+        // scripted shared-listener scenarios (conn mode): see pool_run
+        for r in 0..poolruns {
+            let v6 = r % 2 == 1;
+            let run_seed: u64 = rng.random();
+            CURRENT_CASE.store(1000 + r as i64, std::sync::atomic::Ordering::Relaxed);
+            match catch_all(|| pool_run(nh, cap, nconn, v6, run_seed, tick, lmin, lmax)) {
+                Ok(tr) => all.extend(tr),
+                Err(msgs) => {
+                    rec::take();
+                    let cause = msgs.first().cloned().unwrap_or_default();
+                    if documented_panic(&cause) {
+                        npanic += 1;
+                    } else {
+                        all.push(json!({"ev":"reset"}));
+                        all.push(json!({"ev":"panic","msg":cause,"run":format!("pool {r}")}));
+                    }
+                }
+            }
+        }
+        // scripted back-pressure scenarios (data mode): see pressure_run
+        for r in 0..pressure {
+            let v6 = r % 2 == 1;
+            let run_seed: u64 = rng.random();
+            match catch_all(|| pressure_run(nh, cap, v6, run_seed, tick, lmin, lmax)) {
+                Ok(tr) => all.extend(tr),
+                Err(msgs) => {
+                    rec::take();
+                    let cause = msgs.first().cloned().unwrap_or_default();
+                    if documented_panic(&cause) {
+                        npanic += 1;
+                    } else {
+                        all.push(json!({"ev":"reset"}));
+                        all.push(json!({"ev":"panic","msg":cause,"run":format!("pressure {r}")}));
+                    }
+                }
+            }
+        }
     });
     util::write_ndjson(&out, &all);
-    println!("runs={runs} events={} ops={nops} runs_with_faults={nfault} steps_with_inflight={nreorder} discarded={npanic}", all.len());
+    println!("runs={runs} pressure={pressure} events={} ops={nops} runs_with_faults={nfault} steps_with_inflight={nreorder} discarded={npanic}", all.len());
+}
+
+/// Two tasks share one listener and are both parked in accept(); the links are held while 2-3
+/// connectors start, then released together, so that their requests reach the listener's host in
+/// the same turn.  Every request must be handed to a worker; none may wait behind a parked accept.
+#[allow(clippy::too_many_arguments)]
+fn pool_run(nh: usize, cap: usize, nconn: u64, v6: bool, seed: u64, tick: u64, lmin: u64, lmax: u64) -> Vec<Value> {
+    let mut rng = SmallRng::seed_from_u64(seed);
+    let mut run = TcpRun::with(nh, cap, v6, seed, tick, lmin, lmax, true, 0);
+    run.cmd(nh, TCmd::BindPool { p: 1, kind: "any".into(), workers: 2 });
+    run.step();
+    run.step();
+    for h in 1..nh {
+        run.sim.hold(hostname(h, nh), "srv".to_string());
+    }
+    let n = rng.random_range(2..=3u64).min(nconn).min(cap as u64);
+    let mut hosts: BTreeMap<u64, usize> = BTreeMap::new();
+    for c in 1..=n {
+        // connectors on two hosts, or several on one host
+        let h = if nh > 2 && rng.random_bool(0.5) { 1 + ((c as usize) % (nh - 1)) } else { 1.min(nh - 1).max(1) };
+        hosts.insert(c, h);
+        run.cmd(h, TCmd::Connect { c, dst: "srv".into(), dh: nh as u64, p: 1, lo: false });
+        run.step();
+    }
+    for h in 1..nh {
+        run.sim.release(hostname(h, nh), "srv".to_string());
+    }
+    let mut done: std::collections::BTreeSet<u64> = Default::default();
+    for _ in 0..(2 * lmax / tick + 14) {
+        for (c, h) in &hosts {
+            if !done.contains(c) {
+                run.cmd(*h, TCmd::Poll { c: *c });
+            }
+        }
+        run.step();
+        for e in &run.last_results {
+            if e["ev"] == "poll" && e["res"] != "pending" {
+                done.insert(e["c"].as_u64().unwrap_or(0));
+            }
+        }
+        if run.links().is_empty() {
+            run.trace.push(json!({"ev":"quiet"}));
+        }
+    }
+    run.finalize();
+    std::mem::take(&mut run.trace)
+}
+
+/// A slow reader behind a fast writer.  Phase 1: the writer writes every step while the reader
+/// takes every segment with a peek followed by reads (whole or in pieces).  Phase 2: the reader stops,
+/// the writer keeps writing until it is told WouldBlock for good.  Phase 3: nobody writes any more
+/// (no shutdown: nothing re-triggers the receiver), everything drains, the reader reads until it
+/// stays pending with nothing in flight.  Flow control must have kept every accepted byte readable.
+fn pressure_run(nh: usize, cap: usize, v6: bool, seed: u64, tick: u64, lmin: u64, lmax: u64) -> Vec<Value> {
+    let mut rng = SmallRng::seed_from_u64(seed);
+    let mut run = TcpRun::with(nh, cap, v6, seed, tick, lmin, lmax, true, 0);
+    let mut conn_host: BTreeMap<u64, usize> = BTreeMap::new();
+    let ch = if nh > 1 { 1 } else { nh };
+    let c = 1u64;
+    conn_host.insert(c, ch);
+    run.cmd(nh, TCmd::Bind { p: 1, kind: "any".into() });
+    run.step();
+    run.cmd(ch, TCmd::Connect { c, dst: "srv".into(), dh: nh as u64, p: 1, lo: false });
+    run.step();
+    let (mut ok, mut acc) = (false, false);
+    for _ in 0..(2 * lmax / tick + 8) {
+        if !acc {
+            run.cmd(nh, TCmd::Accept { p: 1 });
+        }
+        if !ok {
+            run.cmd(ch, TCmd::Poll { c });
+        }
+        run.step();
+        for e in &run.last_results {
+            if e["ev"] == "accept" && e["res"] == "ok" {
+                acc = true;
+            }
+            if e["ev"] == "poll" && e["res"] == "ok" {
+                ok = true;
+            }
+        }
+        if ok && acc {
+            break;
+        }
+    }
+    if !(ok && acc) {
+        return std::mem::take(&mut run.trace);
+    }
+    // the writer is the connector in even-seeded runs, the acceptor otherwise
+    let ws: u64 = if seed % 2 == 0 { 1 } else { 2 };
+    let rs = 3 - ws;
+    let host = |s: u64| if s == 1 { ch } else { nh };
+    let mut accepted = 0u64;
+    let write = |run: &mut TcpRun<'_>, rng: &mut SmallRng, accepted: u64| {
+        let len = rng.random_range(1..=3u64);
+        let data: Vec<u8> = (1..=len).map(|j| model_byte(c, ws, accepted + j)).collect();
+        let key = run.key(c, ws);
+        run.cmd(host(ws), TCmd::Write { key, c, s: ws, data, via: 0 });
+    };
+    let took = |run: &TcpRun<'_>| -> u64 {
+        run.last_results
+            .iter()
+            .filter(|e| e["ev"] == "write" && e["res"] == "ok")
+            .map(|e| e["data"].as_array().map(|a| a.len()).unwrap_or(0) as u64)
+            .sum()
+    };
+    let cycles = rng.random_range(3..=7u64);
+    for _ in 0..(cycles + 2 * lmax / tick) {
+        write(&mut run, &mut rng, accepted);
+        let key = run.key(c, rs);
+        run.cmd(host(rs), TCmd::Read { key: key.clone(), c, s: rs, n: rng.random_range(1..=4), peek: true });
+        let pieces = rng.random_range(1..=2);
+        for _ in 0..pieces {
+            run.cmd(host(rs), TCmd::Read { key: key.clone(), c, s: rs, n: if pieces == 1 { 4 } else { rng.random_range(1..=2) }, peek: false });
+        }
+        run.step();
+        accepted += took(&run);
+    }
+    for _ in 0..(2 * cap as u64 + 2 * lmax / tick + 6) {
+        write(&mut run, &mut rng, accepted);
+        run.step();
+        accepted += took(&run);
+    }
+    for _ in 0..(2 * lmax / tick + 6) {
+        run.step();
+    }
+    for round in 0..(accepted + 6) {
+        if run.links().is_empty() {
+            run.trace.push(json!({"ev":"quiet"}));
+        }
+        let key = run.key(c, rs);
+        run.cmd(host(rs), TCmd::Read { key, c, s: rs, n: 3 + (round % 2) as usize, peek: false });
+        run.step();
+    }
+    run.finalize();
+    std::mem::take(&mut run.trace)
 }
 
 /// Harness bookkeeping: which connections / ends / halves exist (from the results the calls returned).
@@ -2378,6 +2703,10 @@ fn random_update(results: &[Value], conns: &mut BTreeMap<u64, RConn>, st: u64, m
 
 fn main() {
     let args: Vec<String> = std::env::args().skip(1).collect();
+    if let Some(p) = util::arg(&args, "panics") {
+        let _ = std::fs::remove_file(&p);
+        let _ = PANIC_LOG.set(p);
+    }
     match args.first().map(|s| s.as_str()) {
         Some("ports-replay") => main_ports_replay(&args[1..]),
         Some("ports-random") => main_ports_random(&args[1..]),
